@@ -38,6 +38,13 @@ fn c03_txversion_all_headers() {
                 assert!(v.version_group_id() == group);
             }
             assert!(v.has_overwinter() == overwintered);
+            // which sections the format carries (protocol spec 7.1): JoinSplits for every
+            // pre-Overwinter version >= 2 and for v3/v4; Sapling from v4; Orchard from v5; Ironwood in v6
+            let fmt_version = if overwintered { version } else { 0 };
+            assert!(v.has_sprout() == if overwintered { version == 3 || version == 4 } else { version >= 2 });
+            assert!(v.has_sapling() == (fmt_version >= 4));
+            assert!(v.has_orchard() == (fmt_version >= 5));
+            assert!(v.has_ironwood() == (fmt_version >= 6));
             let mut out = [0u8; 8];
             let left = {
                 let mut w: &mut [u8] = &mut out;
@@ -95,6 +102,44 @@ fn c03_outpoint_roundtrip() {
         Err(e) => {
             assert!(len < 36);
             kani::cover!(len == 35);
+            core::mem::forget(e);
+        }
+    }
+}
+
+use zcash_transparent::bundle::TxOut;
+
+//@ {"p":"C03","tier":"quick","clause":"TxOut::read on amount || empty script: Ok iff the 8 amount bytes are a value in 0..=MAX_MONEY (as a non-negative i64), never a panic; the value read is that integer; write reproduces the 9 bytes","bounds":"all 8-byte amount fields followed by an empty script (script length byte 0)","assume":"Err values are mem::forget-ed","covers":3,"t":900}
+#[kani::proof]
+#[kani::unwind(10)]
+fn c03_txout_amount_range() {
+    let a: [u8; 8] = kani::any();
+    let mut buf = [0u8; 9];
+    buf[..8].copy_from_slice(&a);
+    let mut rd: &[u8] = &buf[..];
+    let r = TxOut::read(&mut rd);
+    let v = i64::from_le_bytes(a);
+    match r {
+        Ok(o) => {
+            assert!(v >= 0 && v as u64 <= zcash_protocol::value::MAX_MONEY);
+            assert!(o.value().into_u64() == v as u64);
+            assert!(rd.is_empty());
+            let mut out = [0u8; 9];
+            let left = {
+                let mut w: &mut [u8] = &mut out;
+                let wr = o.write(&mut w);
+                assert!(wr.is_ok());
+                core::mem::forget(wr);
+                w.len()
+            };
+            assert!(left == 0 && out == buf);
+            kani::cover!(v as u64 == zcash_protocol::value::MAX_MONEY);
+            core::mem::forget(o);
+        }
+        Err(e) => {
+            assert!(v < 0 || v as u64 > zcash_protocol::value::MAX_MONEY);
+            kani::cover!(v == -1);
+            kani::cover!(v as u64 == zcash_protocol::value::MAX_MONEY + 1);
             core::mem::forget(e);
         }
     }
